@@ -171,12 +171,35 @@ func c02Walk(l *rt.Ledger) (out c02Stored, err error) {
 // --- observations of one transaction ------------------------------------------------
 
 type c02Obs struct {
-	created, destroyed      []uint64
-	attached, attDestroyed  int
-	malformed               string
+	created, destroyed     []uint64            // destroyed: from the resource's own ResourceDestroyed event
+	destroyedR             []uint64            // subset reported by C.R.ResourceDestroyed
+	inherited              map[string][]uint64 // uuids per inherited (interface-declared) destruction event type
+	attached, attDestroyed int
+	malformed              string
+}
+
+// c02Marker is a contract deployed under the same name at 0x1 and at 0x2; R
+// conforms to both K.Marked interfaces (the second imported with an alias), so
+// destroying an R must deliver one destruction event per declaring type.
+const c02Marker = `access(all) contract K {
+    access(all) resource interface Marked {
+        access(all) event ResourceDestroyed(uuid: UInt64 = self.uuid)
+    }
+}
+`
+
+var c02InheritedEvents = []string{"A.0000000000000001.K.Marked.ResourceDestroyed", "A.0000000000000002.K.Marked.ResourceDestroyed"}
+
+func c02Prelude() string {
+	p := strings.Replace(proggen.PreludeContract, "access(all) contract C {", "import K from 0x1\nimport K as K2 from 0x2\naccess(all) contract C {", 1)
+	if !strings.Contains(p, "access(all) resource R: RI {") {
+		panic("c02: prelude changed")
+	}
+	return strings.Replace(p, "access(all) resource R: RI {", "access(all) resource R: RI, K.Marked, K2.Marked {", 1)
 }
 
 func c02Observe(res *rt.Result) (o c02Obs) {
+	o.inherited = map[string][]uint64{}
 	for _, l := range res.Logs {
 		l = strings.Trim(l, "\"")
 		switch {
@@ -197,7 +220,16 @@ func c02Observe(res *rt.Result) (o c02Obs) {
 		fields := cadence.FieldsMappedByName(ev)
 		if u, ok := fields["uuid"]; ok {
 			if uv, ok := u.(cadence.UInt64); ok {
-				o.destroyed = append(o.destroyed, uint64(uv))
+				id := ev.EventType.ID()
+				switch {
+				case strings.Contains(id, ".K.Marked."):
+					o.inherited[id] = append(o.inherited[id], uint64(uv))
+				case strings.HasSuffix(id, ".C.R.ResourceDestroyed"):
+					o.destroyedR = append(o.destroyedR, uint64(uv))
+					o.destroyed = append(o.destroyed, uint64(uv))
+				default:
+					o.destroyed = append(o.destroyed, uint64(uv))
+				}
 			} else {
 				o.malformed = "event " + ev.String()
 			}
@@ -269,6 +301,31 @@ func c02Check(before, after c02Stored, o c02Obs) (bad, detail string) {
 			}
 		}
 	}
+	// every destruction event a type declares or inherits is delivered exactly once per destroyed resource:
+	// R inherits one from K.Marked of 0x1 and one from the same-named K.Marked of 0x2
+	wantR := setOf(o.destroyedR)
+	for _, evType := range c02InheritedEvents {
+		got := o.inherited[evType]
+		if u, dup := dupOf(got); dup {
+			return "inherited-destroy-event-duplicate", fmt.Sprintf("%s delivered twice for uuid %d", evType, u)
+		}
+		gs := setOf(got)
+		for u := range wantR {
+			if !gs[u] {
+				return "inherited-destroy-event-missing", fmt.Sprintf("R %d was destroyed but %s was not delivered for it", u, evType)
+			}
+		}
+		for u := range gs {
+			if !wantR[u] {
+				return "inherited-destroy-event-for-unknown", fmt.Sprintf("%s delivered for uuid %d which C.R.ResourceDestroyed did not report", evType, u)
+			}
+		}
+	}
+	for id := range o.inherited {
+		if id != c02InheritedEvents[0] && id != c02InheritedEvents[1] {
+			return "malformed-observation", "unexpected inherited event type " + id
+		}
+	}
 	if after.attachments != before.attachments+o.attached-o.attDestroyed {
 		return "attachment-count", fmt.Sprintf("attachments stored before=%d attached=%d destroyed=%d stored after=%d", before.attachments, o.attached, o.attDestroyed, after.attachments)
 	}
@@ -292,7 +349,9 @@ type c02State struct {
 
 func c02Base() *rt.Ledger {
 	l := rt.NewLedger()
-	rt.Deploy(l, rt.Addr(1), "C", proggen.PreludeContract, false)
+	rt.Deploy(l, rt.Addr(1), "K", c02Marker, false)
+	rt.Deploy(l, rt.Addr(2), "K", c02Marker, false)
+	rt.Deploy(l, rt.Addr(1), "C", c02Prelude(), false)
 	return l
 }
 
